@@ -1,4 +1,4 @@
-CONSTANTS Deep = FALSE
+CONSTANTS Deep = TRUE
 SPECIFICATION Spec
 INVARIANTS Emit
 CHECK_DEADLOCK FALSE
